@@ -17,6 +17,10 @@ def lens_grid(ctx):
 def C01(ctx):
     g = G(ctx.sub("g")); R = g.R
     cases = []
+    # the padding helpers of the anchor with the default block size
+    for n in range(0, 20):
+        d = R.randbytes(n)
+        cases.append(op_pad(1, d, None, gen="pad default block size")); cases.append(op_pad(2, d, None, gen="pad default block size"))
     k_eq = g.keys[5]; k_a = g.keys[0]
     for n in lens_grid(ctx):
         for key in (k_a, k_eq):
@@ -96,6 +100,11 @@ def mib_probe(ctx, g, when):
 def C02(ctx):
     g = G(ctx.sub("g")); R = g.R
     cases = []
+    # refusals of the anchored functions (key, ARQC, response code, CSU of the wrong size): the class only
+    for _ in range(ctx.n(120, 600)):
+        k = R.choice([g.key(), g.badkey()])
+        cases.append(op_arpc1(k, g.sized(8, .4), g.sized(2, .4), gen="malformed", proj="class"))
+        cases.append(op_arpc2(k, g.sized(8, .4), g.sized(4, .4), R.choice([None, R.randbytes(R.randrange(0, 12))]), gen="malformed", proj="class"))
     for plen in [None] + list(range(0, 9)):
         for _ in range(ctx.n(60, 600)):
             k = g.key(); q = R.randbytes(8); csu = R.randbytes(4)
@@ -366,6 +375,7 @@ def C06(ctx):
                 cases.append(cm)
     for _ in range(ctx.n(300, 1000)):
         cases.append(op_command_mac(g.badkey(), g.msg(), None, gen="malformed", proj="class"))
+        cases.append(op_mac3(g.sized(8, .5), g.sized(8, .5), g.msg(), R.choice([1, 2]), None, gen="malformed", proj="class"))
     for n in ([1 << 20] if not ctx.thorough else [1 << 20, (1 << 20) + 3, 1 << 21]):
         d = R.randbytes(n); k = g.fresh_key()
         with ctx.guard("script MAC of a megabyte command", f"command_mac len={n}"):
